@@ -47,12 +47,14 @@ func (f *Fboundp) Call(s *slip.Scope, args slip.List, depth int) slip.Object {
 	// function is, pkg:name for exported functions only and pkg::name for any
 	// function of the package.
 	if pkg, _, _ := unpackSymbol(sym); pkg != nil {
-		if slip.FindFunc(string(sym)) != nil {
+		if fi := slip.FindFunc(string(sym)); fi != nil && !fi.Undefined() {
 			return slip.True
 		}
 		return nil
 	}
-	if slip.CurrentPackage.GetFunc(string(sym)) != nil {
+	// A name that was only called so far, a call of it was compiled, has a
+	// stand-in but no definition.
+	if fi := slip.CurrentPackage.GetFunc(string(sym)); fi != nil && !fi.Undefined() {
 		return slip.True
 	}
 	return nil
